@@ -4,7 +4,7 @@ from concurrent.futures import ThreadPoolExecutor
 
 from vcommon import Check, InternalError, ROOT, main_wrapper, run_impl, glist, gbool, gnat, gz
 
-CLASS_ORDER = ["Leaf", "Two", "FnGen", "NoGen", "Node", "Pre", "Out", "Producer", "T"]
+CLASS_ORDER = ["Leaf", "Two", "FnGen", "NoGen", "Node", "Pre", "Out", "Producer", "T", "Clamp", "TClamp"]
 # (argument, file name) of the pathgenerator parameters, declaration order (tied to the real
 # ObjectType.arguments on every run, obligation tie:class-table)
 GENS = {
@@ -17,6 +17,8 @@ GENS = {
     "Out": [["p", "out.txt"]],
     "Producer": [["p", "prod.txt"]],
     "T": [["p", "out"], ["q", "o.txt"]],
+    "Clamp": [["p", "clamp.txt"]],
+    "TClamp": [["p", "out"], ["q", "o.txt"]],
 }
 # fields able to hold configurations, declaration order
 SHAPE = {
@@ -25,7 +27,14 @@ SHAPE = {
     "NoGen": ["c", "l"],
     "Node": ["c", "c2", "l", "d", "ll", "dl"],
     "T": ["c", "c2", "l", "d", "ll", "dl"],
+    "Clamp": ["c"],
+    "TClamp": ["c", "c2", "l", "d"],
 }
+# classes whose __validate__ rewrites v when it exceeds 50 (the identifier, hence the job directory,
+# is the one of the validated configuration)
+CLAMPS = ("Clamp", "TClamp")
+# keys that a careless encoding of "/" and "%" confuses
+CONFUSABLE = [("a/b", "a%2Fb"), ("%", "%25"), ("x/", "x%2F"), ("a%b", "a%25b"), ("/", "%2F"), ("a/b", "a%252Fb")]
 PLAIN_KEYS = ["a", "b", "k0", "0", "1", "x.y", "out", "é", "a b", "__pre_tasks__", "...", "o.txt", "c", "l"]
 ODD_KEYS = ["", ".", "..", "a/b", "/abs", "a//b/", "//r", "%", "%2F", "a%b/", "./x", "../x", "/"]
 
@@ -43,7 +52,7 @@ def gen_case(rng, odd):
         nodes.append(dict(cls=cls, sealed=sealed, fields=[], pre=[], init=[], task=None))
         return len(nodes) - 1
 
-    new("T")
+    new("TClamp" if rng.random() < 0.25 else "T")
     # configurations sealed by earlier submissions: a producer task, what it holds, its output
     for _ in range(rng.choice([0, 0, 0, 1, 1, 2])):
         p = new("Producer", True)
@@ -75,7 +84,7 @@ def gen_case(rng, odd):
     n_free = rng.choice([0, 1, 2, 3, 4, 5, 6, 8, 10])
     free = [0]
     for _ in range(n_free):
-        free.append(new(rng.choices(["Leaf", "Two", "FnGen", "NoGen", "Node", "Pre"], [3, 2, 1, 2, 5, 2])[0]))
+        free.append(new(rng.choices(["Leaf", "Two", "FnGen", "NoGen", "Node", "Pre", "Clamp"], [3, 2, 1, 2, 5, 2, 2])[0]))
     pres = [i for i in free if nodes[i]["cls"] == "Pre"]
     targets = list(range(1, len(nodes))) or [0]
 
@@ -104,6 +113,11 @@ def gen_case(rng, odd):
             x = mk()
             if x["t"] != "none":
                 d[key()] = x
+        if odd and rng.random() < 0.35:
+            for k in rng.choice(CONFUSABLE):
+                x = mk()
+                if x["t"] != "none":
+                    d[k] = x
         return dict(t="dict", v=[[k, x] for k, x in d.items()])
 
     for i in free:
@@ -121,7 +135,7 @@ def gen_case(rng, odd):
                     nd["fields"].append([f, dict(t="list", v=[reflist() for _ in range(rng.choice([0, 1, 2]))])])
                 elif f == "dl":
                     nd["fields"].append([f, dict_of(reflist)])
-        if rng.random() < 0.3:
+        if rng.random() < (0.9 if nd["cls"] in CLAMPS else 0.3):
             nd["fields"].insert(0, ["v", dict(t="int", v=rng.randrange(100))])
         later = [p for p in pres if p > i] or (pres if rng.random() < 0.05 else [])
         if later and rng.random() < (0.6 if i == 0 else 0.3):
@@ -129,7 +143,8 @@ def gen_case(rng, odd):
         nd["order"] = rng.sample(range(len(nd["fields"])), len(nd["fields"]))
     if pres and rng.random() < 0.4:
         nodes[0]["init"] = [rng.choice(pres) for _ in range(rng.choice([1, 2]))]
-    return dict(root=0, producers=producers, nodes=nodes)
+    # the second submit is a fresh copy; for half of the cases its dicts are filled in the opposite order
+    return dict(root=0, producers=producers, nodes=nodes, reorder=rng.random() < 0.5)
 
 
 def values_in(v):
@@ -141,6 +156,13 @@ def values_in(v):
             yield from values_in(x)
     else:
         yield v
+
+
+def containers(v):
+    if v["t"] in ("list", "dict"):
+        yield v
+        for x in v["v"]:
+            yield from containers(x if v["t"] == "list" else x[1])
 
 
 def dict_keys(v):
@@ -248,7 +270,7 @@ def oracle(case):
     first, second = a["first"], a["second"]
     jd = first["jobdir"]
     why = "plain-keys" if all(is_plain(k) for k in case_keys(case)) else "nonplain-dict-key"
-    small = dict(root=case["root"], producers=case["producers"], nodes=case["nodes"])
+    small = dict(root=case["root"], producers=case["producers"], nodes=case["nodes"], reorder=bool(case.get("reorder")))
     new = [v for v in first["values"] if v["path"] is not None and not first["sealed"][v["node"]]]
     jparts = resolve(jd["parts"])
     seen = {}
@@ -271,10 +293,23 @@ def oracle(case):
         seen.setdefault(k, who)
     r1 = [rel_to_job(v["path"], jd) for v in first["values"]]
     r2 = [rel_to_job(v["path"], second["jobdir"]) for v in second["values"]]
-    if r1 != r2 or jd != second["jobdir"]:
-        out.append(dict(key=f"C17:not-reproducible:{why}",
-                        what="submitting the same configuration again gave other paths",
-                        data=dict(case=small, first=first, second=second)))
+    if jd != second["jobdir"]:
+        out.append(dict(key=f"C17:other-jobdir:{why}",
+                        what="a fresh copy of the configuration was given another job directory",
+                        data=dict(case=small, first=jd, second=second["jobdir"])))
+    elif r1 != r2:
+        # same job directory (same identifier): the same configuration
+        if case.get("reorder") and any(v["t"] == "dict" and len(v["v"]) > 1
+                                       for nd in case["nodes"] for _, fv in nd["fields"] for v in containers(fv)):
+            out.append(dict(key="C17:paths-depend-on-dict-insertion-order",
+                            what="the same configuration (same identifier and job directory) with its dicts "
+                                 "filled in another order received other generated paths",
+                            data=dict(case=small, first=[x for x, y in zip(r1, r2) if x != y],
+                                      second=[y for x, y in zip(r1, r2) if x != y])))
+        else:
+            out.append(dict(key=f"C17:not-reproducible:{why}",
+                            what="submitting the same configuration again gave other paths",
+                            data=dict(case=small, first=first, second=second)))
     return out
 
 
@@ -286,7 +321,8 @@ def reductions(case):
     res = []
 
     def emit(mut):
-        c2 = copy.deepcopy(dict(root=case["root"], producers=case["producers"], nodes=case["nodes"]))
+        c2 = copy.deepcopy(dict(root=case["root"], producers=case["producers"], nodes=case["nodes"],
+                                reorder=bool(case.get("reorder"))))
         mut(c2["nodes"])
         for nd in c2["nodes"]:
             nd.pop("order", None)
@@ -369,7 +405,9 @@ def run(c: Check):
               "their sealed sub-configurations and fresh outputs) over vpk_c17; references shared at random, back "
               "edges, lists, dicts, nested lists/dicts, pre-tasks at any node, init tasks at the root; 1/4 of the "
               "cases draw dict keys that are not plain names; non-trivial = at least 3 generated values set by "
-              "this submit at >=2 different nesting depths, distinct by heap")
+              "this submit at >=2 different nesting depths, distinct by heap; some classes rewrite a "
+              "signature-relevant parameter in __validate__ (v > 50) so that the job directory is only known after "
+              "validation; half of the second submits fill every dict in the opposite order")
     c.build()
     c.props()
     n = 1600 if c.quick else 20000
@@ -413,6 +451,10 @@ def run(c: Check):
         c.count("submit:" + (first["exc"] or "ok"))
         c.count("keys:" + ("plain" if all(is_plain(k) for k in case_keys(case)) else "nonplain"))
         c.count(f"producers={len(case['producers'])}")
+        c.count("second-copy:" + ("dicts-reversed" if case.get("reorder") else "identical"))
+        if any(nd["cls"] in CLAMPS and any(k == "v" and fv["v"] > 50 for k, fv in nd["fields"])
+               for nd in case["nodes"]):
+            c.count("validate-rewrites-identifier")
         for nd in case["nodes"]:
             c.count("cls:" + nd["cls"])
             if nd["pre"]:
@@ -430,11 +472,14 @@ def run(c: Check):
     header = HEADER + "Definition gens := " + g_gens(classes) + ".\n"
     bad = c.corr_shards("corr", header, good, g_case, "check_case", shard=100)
     if bad:
-        # which behaviour does the tree have?  (the code before fixes/C17-1.diff uses dict keys as they are)
+        # which behaviour does the tree have?  check_case_insertion: before fixes/C17-2.diff (dicts walked in
+        # insertion order); check_case_prefix: before fixes/C17-1.diff too (dict keys used as they are)
         sub = [good[i] for i in bad[:200]]
         saved = list(c.obligations)
-        bad_prefix = c.corr_shards("diag", header, sub, g_case, "check_case_prefix", shard=100)
+        bad_ins = c.corr_shards("diag", header, sub, g_case, "check_case_insertion", shard=100)
+        bad_prefix = c.corr_shards("diag2", header, sub, g_case, "check_case_prefix", shard=100)
         c.obligations = saved
+        c.extra["disagreeing_cases_match_insertion_order_model"] = len(sub) - len(bad_ins)
         c.extra["disagreeing_total"] = len(bad)
         c.extra["disagreeing_with_nonplain_keys"] = sum(
             1 for i in bad if not all(is_plain(k) for k in case_keys(good[i])))
@@ -443,7 +488,8 @@ def run(c: Check):
     c.extra["disagreeing_cases"] = [dict(nodes=good[i]["nodes"], producers=good[i]["producers"],
                                          values=good[i]["ans"]["values"]) for i in bad[:3]]
     if bad and not c.violations:
-        c.extra["replay_cases"] = [dict(root=good[i]["root"], producers=good[i]["producers"], nodes=good[i]["nodes"])
+        c.extra["replay_cases"] = [dict(root=good[i]["root"], producers=good[i]["producers"], nodes=good[i]["nodes"],
+                                        reorder=bool(good[i].get("reorder")))
                                    for i in bad[:5]]
     c.level_assumptions = [
         "pathlib.PurePosixPath parsing/joining is modelled (GenPath.parse/pjoin), not verified; the job directory "
